@@ -36,7 +36,11 @@ RULE = ("sequential histories of 5-80 ops (QueryRow 30%, QueryRowIndex 20% [Cach
         "1 s..4000 s, Corrupt) over 4 primary keys / 3 index values, expiries (100,10) (20,5) (60,10) (3600,60) "
         "(7d,60) s, jitter draws u=m/1024 scripted per op; ~22% of the histories inject GET/SET/DEL faults per "
         "Redis command (per node in the cluster); 40% CachedConn over one node, 35% cache node, 25% 3-node cluster "
-        "with the observed consistent-hash placement; non-trivial = at least one cache hit, one DB fill, one "
+        "with the observed consistent-hash placement; one quarter of the cases are CONCURRENT (level conc, CachedConn): "
+        "2-8 readers of one uncached key plus independent keys, gated query function / SET / exec function / DEL, "
+        "leader or follower contexts cancelled before, while or after waiting, reads overlapping Execs in every "
+        "order of their steps, forced schedule with quiescence detection after every label, plain reads of every key "
+        "after everything has finished; non-trivial = at least one cache hit, one DB fill, one "
         "not-found read and one Exec; distinct = distinct canonical case JSON")
 TRUSTED = ["miniredis as Redis (GET/SET EX/DEL, FastForward as the server clock); faults injected with its pre-command hook",
            "float64 evaluation of mathx.Unstable.AroundDuration and math.Ceil(d.Seconds()) agrees with the exact rational "
@@ -46,8 +50,14 @@ TRUSTED = ["miniredis as Redis (GET/SET EX/DEL, FastForward as the server clock)
            "implements (C10); in the sqlc driver the real wheel never fires inside a case (cases last milliseconds, "
            "slow ones are rerun)",
            "the Redis circuit breaker stays closed: drivers empty its window through the virtual clock before every call"]
-ASSUMPTIONS = ["c06_one_query_in_flight relies on the single-flight contract of syncx.SingleFlight (property C18, "
-               "c18 SingleFlight theorem); histories here are sequential",
+ASSUMPTIONS = ["c06_one_query_in_flight is proved from C18's transcription of singleflight.go (C18.ProofsSF.sf_one_flight_per_key = "
+               "c18_singleflight_one_flight) and, on the cache-aside LTS ModelConc.CA, with barrier.DoEx modelled by the C18 "
+               "sharing contract (join the flight of the key or register a new one; waiters get the flight's result)",
+               "concurrency limit (documented, replayed on the Go code, label conc:stale-entry-after-race): a reader that "
+               "queried before a write and stores after that write's delete leaves a stale entry until it expires "
+               "(c06_concurrent_race_witness); a single-flight follower receives its leader's result, including the "
+               "leader's context error and a row read before a write that completed before the follower was invoked; "
+               "coherence under concurrency (c06_coherent_concurrent) is stated for states without such a racing store",
                "c06_retry_schedule is over the abstract timer that C10 proves the timing wheel refines",
                "c06_cluster_like_node takes the dispatcher as a total key -> node function (C13 totality/determinism)",
                "coherence is stated for histories whose deletes do not fail and whose Exec names every key whose view "
@@ -159,9 +169,106 @@ def gen_case(rng, level, faulty, long_chain=False):
     return c
 
 
+def gen_conc(rng, kind=None):
+    """one call per thread (reader QueryRowCtx / writer ExecCtx of one key) under a forced schedule.
+    gates of thread i: 10*i+1 (before the database access), 10*i+2 (after it), 10*i+3 (the SET / DEL in Redis)."""
+    kind = kind or rng.choice(["stampede", "stampede", "cancel", "overlap", "overlap", "mixed"])
+    threads, sched = [], []
+
+    def add(w, key, val=0, ga=False, gb=False, gc=False):
+        i = len(threads)
+        threads.append({"w": w, "key": key, "val": val, "ga": 10 * i + 1 if ga else 0, "gb": 10 * i + 2 if gb else 0,
+                        "gc": 10 * i + 3 if gc else 0})
+        return i
+
+    nkeys = rng.randint(1, 3)
+    # setup: some keys get a row first
+    for k in range(nkeys):
+        if rng.random() < 0.7:
+            sched.append(["t", add(True, k, rng.randint(1, 50))])
+    if kind in ("stampede", "cancel"):
+        leaders = []
+        for k in range(nkeys):
+            n = rng.randint(2, 8) if k == 0 else rng.randint(1, 4)
+            # the first reader is held inside its query; the others would be held too if they ever queried
+            ids = [add(False, k, ga=(rng.random() < (0.8 if j == 0 else 0.5)), gb=(j == 0 and rng.random() < 0.7),
+                       gc=(j == 0 and rng.random() < 0.3)) for j in range(n)]
+            leaders.append(ids)
+        order = [i for ids in leaders for i in ids]
+        # the gated reader of every key first (it becomes the executing call), the others in random order
+        firsts = [ids[0] for ids in leaders]
+        rest = [i for i in order if i not in firsts]
+        rng.shuffle(rest)
+        rng.shuffle(firsts)
+        for i in firsts + rest:
+            sched.append(["t", i])
+        if kind == "cancel":
+            victim = rng.choice(firsts if (rng.random() < 0.75 or not rest) else rest)
+            threads[victim]["gc"] = 0   # never cancel a call whose SET is held inside Redis (the client would give up on it)
+            if rng.random() < 0.8:
+                sched.append(["c", victim])
+            else:
+                sched.insert(rng.randrange(len(sched) + 1), ["c", victim])   # possibly before it starts
+            cancelled = {victim}
+        else:
+            cancelled = set()
+        opens = [g for i in firsts for g in (threads[i]["ga"], threads[i]["gb"], threads[i]["gc"]) if g and i not in cancelled]
+        late = [threads[i]["ga"] for i in rest if threads[i]["ga"] and i not in cancelled]
+        # gates of one thread in order, threads interleaved
+        per = {}
+        for g in opens:
+            per.setdefault(g // 10, []).append(g)
+        while per:
+            i = rng.choice(sorted(per))
+            sched.append(["o", per[i].pop(0)])
+            if not per[i]:
+                del per[i]
+            if rng.random() < 0.3:
+                sched.append(["t", add(False, rng.randrange(nkeys))])     # a late reader joins or hits
+        for g in late:
+            sched.append(["o", g])
+    else:
+        # overlaps of reads and writes on key 0 (and independent traffic on the others)
+        parked = []
+        if rng.random() < 0.35:
+            # a writer held inside exec before its database write while a reader runs from start to end
+            i = add(True, 0, rng.randint(51, 99), ga=True, gc=rng.random() < 0.3)
+            sched.append(["t", i])
+            parked.append(i)
+            sched.append(["t", add(False, 0)])
+        for _ in range(rng.randint(1, 4)):
+            k = 0 if rng.random() < 0.7 else rng.randrange(nkeys)
+            if rng.random() < 0.5:
+                i = add(False, k, ga=rng.random() < 0.4, gb=rng.random() < 0.6, gc=rng.random() < 0.4)
+            else:
+                i = add(True, k, rng.choice([0, rng.randint(1, 50), rng.randint(51, 99)]),
+                        ga=rng.random() < 0.4, gb=rng.random() < 0.5, gc=rng.random() < 0.5)
+            sched.append(["t", i])
+            parked.append(i)
+            if rng.random() < 0.4:
+                sched.append(["t", add(False, k)])
+        per = {i: [g for g in (threads[i]["ga"], threads[i]["gb"], threads[i]["gc"]) if g] for i in parked}
+        per = {i: gs for i, gs in per.items() if gs}
+        while per:
+            i = rng.choice(sorted(per))
+            sched.append(["o", per[i].pop(0)])
+            if not per[i]:
+                del per[i]
+            if rng.random() < 0.25:
+                sched.append(["t", add(False, rng.randrange(nkeys))])
+    # everything has finished: plain reads of every key, twice
+    for _ in range(2):
+        for k in range(nkeys):
+            sched.append(["t", add(False, k)])
+    return {"level": "conc", "expire": 100, "nfexpire": 10, "nnodes": 1, "threads": threads, "sched": sched, "ops": []}
+
+
 def generate(rng, tier, n):
     cases = []
-    for i in range(n):
+    nconc = max(1, n // 4)
+    for i in range(nconc):
+        cases.append(gen_conc(rng))
+    for i in range(n - nconc):
         x = rng.random()
         level = "sqlc" if x < 0.40 else ("node" if x < 0.75 else "cluster")
         faulty = rng.random() < 0.22
@@ -189,6 +296,18 @@ def search(rng, problems):
             out.append({"level": level, "expire": 3600, "nfexpire": 60, "nnodes": nn, "ops": ops})
     for _ in range(40):
         out.append(gen_case(rng, rng.choice(["node", "cluster"]), True, True))
+    for kind in ("stampede", "cancel", "overlap", "mixed"):
+        for _ in range(15):
+            out.append(gen_conc(rng, kind))
+    # a writer held before its database write while a reader fills the cache; a leader cancelled with followers waiting
+    out.append({"level": "conc", "expire": 100, "nfexpire": 10, "nnodes": 1, "ops": [],
+                "threads": [{"w": True, "key": 0, "val": 3, "ga": 0, "gb": 0, "gc": 0}, {"w": True, "key": 0, "val": 5, "ga": 11, "gb": 0, "gc": 0},
+                            {"w": False, "key": 0, "val": 0, "ga": 0, "gb": 0, "gc": 0}, {"w": False, "key": 0, "val": 0, "ga": 0, "gb": 0, "gc": 0}],
+                "sched": [["t", 0], ["t", 1], ["t", 2], ["o", 11], ["t", 3]]})
+    out.append({"level": "conc", "expire": 100, "nfexpire": 10, "nnodes": 1, "ops": [],
+                "threads": [{"w": True, "key": 0, "val": 3, "ga": 0, "gb": 0, "gc": 0}, {"w": False, "key": 0, "val": 0, "ga": 11, "gb": 12, "gc": 0}] +
+                           [{"w": False, "key": 0, "val": 0, "ga": 10 * i + 1, "gb": 0, "gc": 0} for i in range(2, 6)],
+                "sched": [["t", 0], ["t", 1], ["t", 2], ["t", 3], ["t", 4], ["t", 5], ["c", 1], ["o", 21], ["o", 31], ["o", 41], ["o", 51]]})
     return out
 
 
@@ -196,7 +315,7 @@ def drive(cases, tier):
     """cases of level sqlc go to the lib/store/sqlc driver, the others to the lib/store/cache driver"""
     groups = {"./lib/store/sqlc": [], "./lib/store/cache": []}
     for i, c in enumerate(cases):
-        groups["./lib/store/sqlc" if c.get("level") == "sqlc" else "./lib/store/cache"].append(i)
+        groups["./lib/store/sqlc" if c.get("level") in ("sqlc", "conc") else "./lib/store/cache"].append(i)
     obs = [None] * len(cases)
     logs = []
     for pkg, idx in groups.items():
@@ -277,7 +396,59 @@ def cop(o):
     raise ValueError(k)
 
 
+CONC_NONE = "[] [] [] [] [] []"
+
+
+def ccop(t):
+    return "CA.mkcop %s %s %s %s %s %s" % (cbool(t["w"]), cnat(t["key"]), cnat(t["val"]), cnat(t["ga"]), cnat(t["gb"]), cnat(t["gc"]))
+
+
+def encode_conc(case, obs):
+    threads = clist([ccop(t) for t in case["threads"]])
+    sched = clist([{"t": "LStart %s", "o": "LOpen %s", "c": "LCancel %s"}[k] % cnat(v) for k, v in case["sched"]])
+    head = "mkcase 3%%nat %s %s 1%%nat [] [] [] [] 0%%Z %s %s" % (cZ(case["expire"]), cZ(case["nfexpire"]), threads, sched)
+    if not isinstance(obs, dict) or "events" not in obs or obs.get("aborted"):
+        return head + " [OStart 0 0; OStart 0 0; OEv (CA.EQBegin 0 0); OEv (CA.EQBegin 0 0)] [] [] []"   # fails both checkers
+    evs = []
+    for kind, t, k, v in obs["events"]:
+        if kind == 0:
+            evs.append("OEv (CA.EQBegin %s %s)" % (cnat(t), cnat(k)))
+        elif kind == 1:
+            evs.append("OEv (CA.EQEnd %s %s)" % (cnat(t), cnat(k)))
+        elif kind == 2:
+            evs.append("OEv (CA.ESet %s %s %s)" % (cnat(t), cnat(k), cnat(v if v >= 0 else 4999)))
+        elif kind == 3:
+            evs.append("OEv (CA.EDel %s %s)" % (cnat(t), cnat(k)))
+        elif kind == 4:
+            evs.append("OEv (CA.EWrite %s %s %s)" % (cnat(t), cnat(k), cnat(v)))
+        elif kind == 5:
+            evs.append("ORet %s" % cnat(t))
+        else:
+            evs.append("OStart %s %s" % (cnat(t), cnat(k)))
+    res = []
+    for r in obs["res"]:
+        if r is None:
+            res.append("None")
+        elif r == "ctx":
+            res.append("(Some None)")
+        elif r in ("nf", "ok"):
+            res.append("(Some (Some 0%nat))")
+        elif isinstance(r, list) and r[0] == "row":
+            res.append("(Some (Some %s))" % cnat(r[1]))
+        else:
+            res.append("(Some (Some 4997%nat))")     # unexpected error: no model result equals it
+    cache = clist([copt(None if v is None else cnat(v if v >= 0 else 4999)) for v in obs["cache"]])
+    db = clist([cnat(v) for v in obs["db"]])
+    return "%s %s %s %s %s" % (head, clist(evs), clist(res), cache, db)
+
+
 def encode(case, obs):
+    if case["level"] == "conc":
+        return encode_conc(case, obs)
+    return encode_seq(case, obs) + " " + CONC_NONE
+
+
+def encode_seq(case, obs):
     level = {"sqlc": 0, "node": 1, "cluster": 2}[case["level"]]
     uni = _universe()
     if not isinstance(obs, dict) or "ops" not in obs:
@@ -304,7 +475,18 @@ def encode(case, obs):
 
 
 # ------------------------------------------------------------------ evidence helpers
+def _conc_stats(case, obs):
+    evs = obs.get("events", [])
+    readers = [i for i, t in enumerate(case["threads"]) if not t["w"]]
+    leaders = {e[1] for e in evs if e[0] == 0}
+    started = {e[1] for e in evs if e[0] == 6}
+    followers = [i for i in readers if i in started and i not in leaders]
+    return readers, leaders, followers
+
+
 def _reads(case, obs):
+    if case["level"] == "conc":
+        return
     prevq = 0
     for o, ob in zip(case["ops"], obs.get("ops", [])):
         if o["op"] in ("qrow", "qidx"):
@@ -313,6 +495,11 @@ def _reads(case, obs):
 
 
 def nontrivial(case, obs):
+    if case["level"] == "conc":
+        if not isinstance(obs, dict) or "events" not in obs:
+            return False
+        readers, leaders, followers = _conc_stats(case, obs)
+        return len(leaders) >= 1 and (len(followers) >= 1 or any(t["w"] and (t["ga"] or t["gb"] or t["gc"]) for t in case["threads"]))
     if not isinstance(obs, dict) or "ops" not in obs:
         return False
     hit = fill = nf = False
@@ -327,6 +514,25 @@ def nontrivial(case, obs):
 
 
 def bucket(case, obs):
+    if case["level"] == "conc":
+        out = ["level:conc", "threads<=%d" % (((len(case["threads"]) + 4) // 5) * 5)]
+        if not isinstance(obs, dict) or "events" not in obs or obs.get("aborted"):
+            return out + ["obs:driver-error"]
+        readers, leaders, followers = _conc_stats(case, obs)
+        out.append("conc:max-in-flight=%d" % max(obs["maxfl"] + [0]))
+        out.append("conc:followers=%d" % min(len(followers), 8))
+        if any(k == "c" for k, _ in case["sched"]):
+            out.append("conc:cancel")
+        if any(r == "ctx" for r in obs["res"]):
+            out.append("conc:ctx-error-returned")
+        if any(t["w"] and (t["ga"] or t["gb"] or t["gc"]) for t in case["threads"]):
+            out.append("conc:writer-parked")
+        if any((not t["w"]) and (t["gb"] or t["gc"]) for t in case["threads"]) and any(t["w"] for t in case["threads"]):
+            out.append("conc:reader-parked-after-db-read")
+        stale = [k for k, (cv, dv) in enumerate(zip(obs["cache"], obs["db"])) if cv is not None and cv != dv]
+        if stale:
+            out.append("conc:stale-entry-after-race")
+        return out
     out = ["level:" + case["level"], "ops<=%d" % (((len(case["ops"]) + 19) // 20) * 20)]
     for k in sorted({o["op"] for o in case["ops"]}):
         out.append("op:" + k)
@@ -349,6 +555,11 @@ def bucket(case, obs):
 
 
 def explain(case, obs):
+    if case.get("level") == "conc":
+        return ("concurrent history contradicts C06.Exec.spec_ok_conc: two database queries for one key were in flight "
+                "together (c06_one_query_in_flight), or a read that started alone after every earlier operation on its key "
+                "had finished -- the last write followed by its delete, no racing store -- did not return the database's "
+                "current row (c06_coherent_concurrent), or a reader was not served, or an uncontended key was queried twice")
     return ("observed behaviour contradicts C06.Exec.spec_ok: a read returned something else than the reference "
             "database's row although every delete naming the key had succeeded (c06_coherent), or a read queried the "
             "DB while a placeholder was live (c06_placeholder_shields), or a stored TTL left [ceil(.95e), ceil(1.05e)] "
